@@ -366,6 +366,14 @@ CHECKS["C17"]["text"] += (" _count_inversions (its two-pointer while loop as a f
                           "class), so 'T-/L-measure = triplet definition' is a theorem about the code as translated; suite "
                           "gen_hierarchy runs the translated definitions against the real functions (exhaustively on small rank "
                           "vectors, on the hierarchy / label / fault streams).")
+CHECKS["C04"]["text"] += (" The melody frame metrics (validate_voicing, validate, voicing_recall, voicing_false_alarm, "
+                          "voicing_measures, raw_pitch_accuracy, raw_chroma_accuracy, overall_accuracy), freq_to_voicing, "
+                          "constant_hop_timebase and the glue of evaluate (to_cent_voicing an extern) are REGENERATED from mir_eval/melody.py on every run (translator part `melody` -> "
+                          "lean/MirGen/Melody.lean over the run-time library MirModel/PyMel.lean) and Props/C04_GenMelody.lean proves "
+                          "each translated definition equal to the hand model for all arrays and tolerances and re-states the "
+                          "published definitions, the [0, 1] range and the octave invariance of the chroma accuracy on the code as "
+                          "translated; suite gen_melody runs the translated definitions and the run-time primitives against the "
+                          "real functions / NumPy.")
 
 
 def main():
